@@ -5,6 +5,10 @@
             RTD <S|M|J|C> <ctx: 5 tokens as for RT> (SPAN <ctx: 5 tokens> | NOSPAN) <nkeys 0..9>
                 inject ctx into an empty carrier, extract into a destination Context holding nkeys unrelated
                 values and (SPAN) a span; C = CompositePropagator{B3 single, B3 multi, Jaeger}
+            PINJ <S|M|J> | <ctx: 5 tokens> | <ctx> ... | s <tid> <flag> ...
+                one thread per ctx injects it into its own carrier under the deterministic scheduler (every carrier.Set
+                is a scheduling point; the schedule is part of the case and ignored by the model); afterwards every
+                carrier is extracted; observation: the extraction parts of all threads, then  ; H ... ; H ...
    observations:  OK x<tid> x<sid> <flags> <remote> x<tracestate>  |  INVALID <caller's context returned unchanged>
                   followed, for RT/RTD, by   ; H x<key> x<value> ...   (the carrier after Inject, in key order)  or  ; NOHDR
                   preceded, for RTD, by   K <number of unrelated values still readable in the returned context>;
@@ -16,7 +20,8 @@ Inductive case :=
 | CRt (k : prop_kind) (c : span_ctx)
 | CExtB (b3 xt xs xf : bytes)
 | CExtJ (h : bytes)
-| CRtD (x : xkind) (c : span_ctx) (d : option span_ctx) (n : nat).
+| CRtD (x : xkind) (c : span_ctx) (d : option span_ctx) (n : nat)
+| CPinj (k : prop_kind) (cs : list span_ctx).
 
 Definition opt_bytes (t : tok) : option bytes :=
   match t with TB b => Some b | TT _ => Some [] | TZ _ => None end.
@@ -54,9 +59,33 @@ Definition parse_rtd (k : tok) (rest : list tok) : option case :=
   | _, _, _ => None
   end.
 
+(* the sections after "PINJ k": contexts, closed by the schedule section (which the model ignores) *)
+Fixpoint parse_ctxs (secs : list (list tok)) : option (list span_ctx) :=
+  match secs with
+  | [] => Some []
+  | sec :: r =>
+      match sec with
+      | t :: _ => if is_tag "s" t then Some []
+                  else match parse_ctx sec, parse_ctxs r with
+                       | Some c, Some cs => Some (c :: cs)
+                       | _, _ => None
+                       end
+      | [] => None
+      end
+  end.
+Definition parse_pinj (k : tok) (rest : list tok) : option case :=
+  match parse_kind k, split_toks "|" rest with
+  | Some kd, [] :: secs => match parse_ctxs secs with
+                           | Some (c :: cs) => Some (CPinj kd (c :: cs))
+                           | _ => None
+                           end
+  | _, _ => None
+  end.
+
 Definition parse_case (l : list tok) : option case :=
   match l with
   | t :: k :: rest =>
+      if is_tag "PINJ" t then parse_pinj k rest else
       if is_tag "RTD" t then parse_rtd k rest else
       if is_tag "RT" t then
         match parse_kind k, parse_ctx rest with
@@ -121,8 +150,28 @@ Definition model_rtd (x : xkind) (c : span_ctx) (d : option span_ctx) (n : nat) 
   let out := roundtrip_into x c dest in
   tag "K" :: tnat (keys_intact n out) :: print_ext (observed_span dest out) ++ tag ";" :: print_carrier (inject_x x c).
 
+(* the extraction parts of several observations in a row: OK takes 6 tokens, INVALID 2 *)
+Fixpoint parse_exts (n : nat) (l : list tok) : option (list (option xobs * bool)) :=
+  match n with
+  | O => Some []
+  | S m => match parse_ext l with
+           | Some (o, same) =>
+               match parse_exts m (skipn (match o with Some _ => 6%nat | None => 2%nat end) l) with
+               | Some r => Some ((o, same) :: r)
+               | None => None
+               end
+           | None => None
+           end
+  end.
+
+Fixpoint print_exts (os : list (option span_ctx)) : list tok :=
+  match os with [] => [] | o :: os' => print_ext o ++ print_exts os' end.
+Fixpoint print_carriers (cs : list carrier) : list tok :=
+  match cs with [] => [] | c :: cs' => tag ";" :: print_carrier c ++ print_carriers cs' end.
+
 Definition model_case (c : case) : list tok :=
   match c with
+  | CPinj k cs => print_exts (map (roundtrip k) cs) ++ print_carriers (map (inject k) cs)
   | CRtD x c d n => model_rtd x c d n
   | CRt k c => print_ext (roundtrip k c) ++ tag ";" :: print_carrier (inject k c)
   | CExtB b3 xt xs xf => print_ext (b3_extract b3 xt xs xf)
@@ -132,6 +181,7 @@ Definition model_case (c : case) : list tok :=
 Definition spec_case (c : case) (o : option xobs) (same : bool) (intact : Z) : list tok :=
   match c with
   | CRtD x c _ n => spec_roundtrip_into x c n o same intact
+  | CPinj _ _ => []
   | CRt k c => spec_roundtrip k c o same
   | CExtB b3 xt xs xf => spec_b3_extract b3 xt xs xf o same
   | CExtJ h => spec_jaeger_extract h o same
@@ -145,6 +195,10 @@ Definition run_model (l : list tok) : list tok :=
 
 Definition run_spec (l obs : list tok) : list tok :=
   match parse_case l with
+  | Some (CPinj k cs) => match parse_exts (length cs) obs with
+                         | Some os => spec_pinj k cs os
+                         | None => fail "obs:unparsable"
+                         end
   | Some c => match parse_obs obs with
               | Some (o, same, intact) => spec_case c o same intact
               | None => fail "obs:unparsable"
@@ -168,6 +222,9 @@ Definition run_tag (l : list tok) : list tok :=
   | Some (CRt k c) =>
       [tag (String.append "rt_" (String.append (kind_name k)
               (if ctx_valid c then (if is_sampled (c_flags c) then "_valid_sampled" else "_valid_unsampled") else "_invalid")))]
+  | Some (CPinj k cs) =>
+      [tag (String.append "pinj_" (String.append (kind_name k)
+              (if forallb ctx_valid cs then (if Nat.eqb (length cs) 2%nat then "_2threads" else "_3threads") else "_some_invalid")))]
   | Some (CRtD x c d n) =>
       [tag (String.append "rtd_" (String.append (xkind_name x) (String.append
               (if ctx_valid c then "_valid" else "_invalid")
